@@ -475,6 +475,10 @@ func c20PlanAt(r c20Run, hit *int) func(CallInfo) Outcome {
 func c20PlanOf(r c20Run) func(CallInfo) Outcome {
 	if r.stop > 0 {
 		inner := c20PlanOf(c20Run{K: r.K, O: r.O})
+		if r.At != "" {
+			hit := -1
+			inner = c20PlanAt(r, &hit)
+		}
 		return func(ci CallInfo) Outcome {
 			if ci.Index == r.stop-1 {
 				return CrashBefore
@@ -578,7 +582,7 @@ func (w *c20World) runOnce(s *c20Scn, idx int, r c20Run, mons *[]Mon) c20Result 
 	} else {
 		steps = c20RealSteps(w, s.NS, w.stepsOf(s))
 	}
-	cl := &c20Client{Store: st}
+	cl := &c20Client{Store: st, pre: w.peerAt}
 	if (r.K >= 0 || r.At != "") && r.O == "fail" {
 		cl.cls = r.Cls
 	}
@@ -726,8 +730,7 @@ func (w *c20World) pkgsOfKind(kind string) map[string]c20Pkg {
 	out := map[string]c20Pkg{}
 	for _, u := range w.st.OfKind(c20PkgGK[kind]) {
 		raw, _, _ := unstructured.NestedString(u.Object, "spec", "package")
-		lim, _, _ := unstructured.NestedInt64(u.Object, "spec", "revisionHistoryLimit")
-		out[u.GetName()] = c20Pkg{Kind: kind, Name: u.GetName(), Raw: raw, Ref: c20Parse(raw), Extra: int(lim)}
+		out[u.GetName()] = c20Pkg{Kind: kind, Name: u.GetName(), Raw: raw, Ref: c20Parse(raw), Extra: w.pkgExtraOf(kind, u)}
 	}
 	return out
 }
@@ -744,9 +747,31 @@ func c20DefaultsSnap(st *Store) map[string]string {
 }
 
 // c20ForeignOf: the fields of a package / CRD / webhook configuration that the initializer does not declare.
-func c20ForeignOf(u *unstructured.Unstructured) string {
-	lim, _, _ := unstructured.NestedInt64(u.Object, "spec", "revisionHistoryLimit")
-	return fmt.Sprintf("%s/%d", u.GetLabels()[c20Label], lim)
+func c20ForeignOf(u *unstructured.Unstructured) map[string]string {
+	if _, isPkg := c20KindOfGK[u.GroupVersionKind().GroupKind().String()]; isPkg {
+		return c20PkgForeign(u)
+	}
+	out := map[string]string{}
+	if l := u.GetLabels(); len(l) > 0 {
+		out["metadata.labels"] = mustJSON(l)
+	}
+	if a := u.GetAnnotations(); len(a) > 0 {
+		out["metadata.annotations"] = mustJSON(a)
+	}
+	return out
+}
+
+// c20ForeignDiff: the names of the undeclared fields that were set and are not what they were (sorted; empty: all
+// kept). A field that was not set and is set now is not reported: a real API server would have defaulted it.
+func c20ForeignDiff(pre, now map[string]string) []string {
+	out := []string{}
+	for k, v := range pre {
+		if now[k] != v {
+			out = append(out, k)
+		}
+	}
+	sort.Strings(out)
+	return out
 }
 
 // c20BundleRefs: the webhook TLS secret of the CRD / webhook-configuration steps ("" unless there is exactly one),
@@ -816,13 +841,16 @@ func (w *c20World) watch(s *c20Scn, idx int, mons *[]Mon) *c20PkgView {
 	// the objects as stored at the moment of our write (after whatever the peer did before that call)
 	atWrite := map[int]*corev1.Secret{}
 	preDefaults := map[int]map[string]string{}
-	preForeign := map[int]string{}
-	st.Before = func(ci CallInfo) {
+	preForeign := map[int]map[string]string{}
+	w.peerAt = func(call int) {
 		for i := range s.Peer {
-			if s.Peer[i].Run == idx && s.Peer[i].Before == ci.Index {
+			if s.Peer[i].Run == idx && s.Peer[i].Before == call {
 				w.applyPeer(s, &s.Peer[i], steps)
 			}
 		}
+	}
+	st.Before = func(ci CallInfo) {
+		w.peerAt(ci.Index)
 		if kind, ok := c20KindOfGK[ci.GK]; ok && ci.Verb == "list" {
 			if _, seen := view.listed[kind]; !seen {
 				view.listed[kind] = w.pkgsOfKind(kind)
@@ -915,11 +943,17 @@ func (w *c20World) watch(s *c20Scn, idx int, mons *[]Mon) *c20PkgView {
 					cur = u
 				}
 			}
-			if pre, had := preForeign[ci.Index]; had && (cur == nil || c20ForeignOf(cur) != pre) {
-				if kind, isPkg := c20KindOfGK[ci.GK]; isPkg {
-					add("C20:package-clobbered", "user-set spec fields of "+kind+"/"+ci.Name+" (as stored at the moment of the call) were changed")
+			if pre, had := preForeign[ci.Index]; had {
+				var changed []string
+				if cur == nil {
+					changed = []string{"the object (deleted)"}
 				} else {
-					add("C20:foreign-field-clobbered", "fields of "+k+"/"+ci.Name+" that the initializer does not declare (as stored at the moment of the call) were changed")
+					changed = c20ForeignDiff(pre, c20ForeignOf(cur))
+				}
+				if kind, isPkg := c20KindOfGK[ci.GK]; isPkg && len(changed) > 0 {
+					add("C20:package-clobbered", "fields of "+kind+"/"+ci.Name+" that the installer does not declare (as stored at the moment of the call) were changed: "+strings.Join(changed, ", "))
+				} else if len(changed) > 0 {
+					add("C20:foreign-field-clobbered", "fields of "+k+"/"+ci.Name+" that the initializer does not declare (as stored at the moment of the call) were changed: "+strings.Join(changed, ", "))
 				}
 			}
 			if cur == nil {
@@ -1199,9 +1233,23 @@ func (w *c20World) postMonitors(s *c20Scn, before c20Store, res c20Result, mons 
 	if !otherWriter {
 		for _, p := range before.Pkgs {
 			for _, q := range after.Pkgs {
-				if p.Kind == q.Kind && p.Name == q.Name && p.Extra != q.Extra {
-					add("C20:package-clobbered", "user-set spec fields of "+p.Name+" were changed")
+				if p.Kind == q.Kind && p.Name == q.Name && p.Extra != q.Extra && p.Extra != 0 {
+					add("C20:package-clobbered", "fields of "+p.Name+" that the installer does not declare were changed")
 				}
+			}
+		}
+		// ... per field, on the stored bytes
+		for k, bv := range res.before {
+			av, ok := res.after[k]
+			if !ok || !(strings.HasPrefix(k, "Provider.") || strings.HasPrefix(k, "Configuration.") || strings.HasPrefix(k, "Function.")) {
+				continue
+			}
+			bu, au := &unstructured.Unstructured{}, &unstructured.Unstructured{}
+			if json.Unmarshal([]byte(bv), &bu.Object) != nil || json.Unmarshal([]byte(av), &au.Object) != nil {
+				continue
+			}
+			if ch := c20ForeignDiff(c20PkgForeign(bu), c20PkgForeign(au)); len(ch) > 0 {
+				add("C20:package-clobbered", "after the run these fields of "+k+", which the installer does not declare, are not what they were: "+strings.Join(ch, ", "))
 			}
 		}
 		for _, p := range before.Crds {
@@ -1266,8 +1314,12 @@ func (w *c20World) postMonitors(s *c20Scn, before c20Store, res c20Result, mons 
 					if c.Kind == o.Whc.Kind && c.Name == nm {
 						ok = true
 						for _, h := range c.Hooks {
+							// per entry: the current bundle AND the configured service
 							if !reflect.DeepEqual(h.Bundle, bundle) {
 								ok = false
+								add("C20:ca-bundle-missing", "webhook "+h.Name+" of configuration "+nm+" does not carry the current CA bundle")
+							} else if st.Svc != nil && h.Svc != *st.Svc {
+								add("C20:ca-bundle-missing", "webhook "+h.Name+" of configuration "+nm+" does not point to the configured service")
 							}
 						}
 					}
@@ -1276,6 +1328,34 @@ func (w *c20World) postMonitors(s *c20Scn, before c20Store, res c20Result, mons 
 					add("C20:ca-bundle-missing", "webhook configuration "+nm+" does not carry the current CA bundle")
 				}
 			}
+		}
+	}
+	// the stored webhook list is the manifest's: what a run against a fresh cluster produces (entries left by another
+	// version or a third party are gone, the order is the manifest's). Expected = the last declaration, over all
+	// webhook-configuration steps in order, of that configuration that declares webhooks (a declaration without
+	// webhooks leaves the list alone).
+	want := map[string][]string{}
+	for _, st := range steps {
+		if st.T != "whcs" || st.Dir == nil {
+			continue
+		}
+		for _, o := range st.Dir.Objs {
+			if o.T == "whc" && len(o.Whc.Hooks) > 0 {
+				want[o.Whc.Kind+"/"+c20WhcName(o.Whc)] = o.Whc.Hooks
+			}
+		}
+	}
+	for _, c := range after.Whcs {
+		wh, ok := want[c.Kind+"/"+c.Name]
+		if !ok || res.touched[c.Kind+"/"+c.Name] {
+			continue
+		}
+		got := []string{}
+		for _, h := range c.Hooks {
+			got = append(got, h.Name)
+		}
+		if !reflect.DeepEqual(got, wh) {
+			add("C20:webhook-entries-differ-from-manifest", fmt.Sprintf("webhook configuration %s/%s holds the entries %v after a completed run, the manifest declares %v", c.Kind, c.Name, got, wh))
 		}
 	}
 }
@@ -1704,6 +1784,18 @@ func init() {
 							f.Cls = oc[1]
 						}
 						s2.Runs = []c20Run{f, {K: -1}}
+						// What another writer wrote was computed from the cluster as it is right before call `before` of ITS run
+						// under that run's own plan. It is replayed here only where the cluster is the same at that call: a
+						// writer of run 0, run 0 not lied to originally, and this fault not a made-up NotFound / AlreadyExists
+						// (after which the run goes on, on another path) at an earlier call. Elsewhere the same bytes could
+						// rewrite a secret that is protected by now - which no writer of the scenarios does.
+						keep := []c20Peer{}
+						for _, p := range s2.Peer {
+							if p.Run == 0 && !c20LieCls(s.Runs[0]) && !(c20LieCls(f) && k < p.Before) {
+								keep = append(keep, p)
+							}
+						}
+						s2.Peer = keep
 						obs, mons := c20RunScn(s2)
 						c.Emit(s2, obs, mons, "exhaustive/"+c20Cls(s2, obs))
 					}
